@@ -406,6 +406,10 @@ func runC12(c *Ctx) {
 		c.mustStates("C12-R6", uj, "accepting return", acc, reqs)
 	})
 	c.Min("C12-R6", 30)
+
+	// integers handed out by accessors (cached total difficulties, balances, transaction and header fields, protocol
+	// constants) are never modified in place anywhere in the module: decided by the ownership rule of C05, shared here
+	c.Borrow("C05", runC05, map[string]string{"C05-R4": "C12-R7"})
 }
 
 // splitTop splits a rendered list "a, f(b, c), d" at top-level commas.
